@@ -1,5 +1,6 @@
 """C17 - the network graph holds only authentic, current gossip (structural part)."""
 from engine import *
+import provenance
 
 GP = 'lightning::routing::gossip::'
 NG = GP + 'NetworkGraph::'
@@ -693,4 +694,5 @@ RULES = [
 	('17.d', 'permanent failures and stale pruning remove exactly what the property says', r17d),
 	('17.e', 'graph objects are fully serialized', r17e),
 	('17.f', 'graph maps are mutated only by the frozen function set', r17f),
+	('17.p', 'same-name field transfer: structs carrying this property\'s quantities are filled from the same-named field or a reviewed alias (rules/provenance.py)', lambda F: provenance.for_property(F, 'C17', '17.p')),
 ]
